@@ -39,7 +39,8 @@ pub struct Cfg {
     pub min_delay: u32,
     pub with_executors: bool,
     pub delays: std::vec::Vec<u32>, // op k = update_delay(delays[k]) with salt k
-    /// what op k does: 0 update_delay(delays[k]) · 1 grant_role(actor 3, canceller) · 2 revoke_role(actor 1, canceller)
+    /// what op k does: 0 update_delay(delays[k]) · 1 grant_role(actor 3, canceller) · 2 revoke_role(actor 1, canceller) ·
+    /// 3 transfer_admin_role(actor 3, start_ledger + 2 000 000) · 4 renounce_admin() · 5 set_role_admin(canceller, proposer)
     #[serde(default)]
     pub kinds: std::vec::Vec<u8>,
 }
@@ -57,12 +58,19 @@ struct Model {
     min: u32,
     now: u32,
     cancellers: std::collections::BTreeSet<usize>,
+    /// last ledger at which an executed transfer_admin_role offer is still stored
+    pending_until: Option<u32>,
+    admin_gone: bool,
+    role_admin_set: bool,
 }
 #[derive(Debug, PartialEq)]
 enum Exp {
     Ok,
     Fail,
     Unspecified,
+}
+fn offer_until(cfg: &Cfg) -> u32 {
+    cfg.start_ledger + 2_000_000
 }
 fn kind_of(cfg: &Cfg, k: usize) -> u8 {
     cfg.kinds.get(k).copied().unwrap_or(0)
@@ -74,14 +82,26 @@ impl Model {
             1 => {
                 self.cancellers.insert(3);
             }
-            _ => {
+            2 => {
                 self.cancellers.remove(&1);
             }
+            // the offer is a temporary entry: it lives to its live_until ledger, or for the minimum lifetime (16) if that is longer
+            3 => self.pending_until = Some(offer_until(cfg).max(self.now + 15)),
+            4 => self.admin_gone = true,
+            _ => self.role_admin_set = true,
         }
     }
     /// would the admin-only call itself succeed once authorised? (revoking a role nobody holds is refused)
     fn call_ok(&self, cfg: &Cfg, k: usize) -> bool {
-        kind_of(cfg, k) != 2 || self.cancellers.contains(&1)
+        if self.admin_gone {
+            return false;
+        }
+        match kind_of(cfg, k) {
+            2 => self.cancellers.contains(&1),
+            3 => self.now <= offer_until(cfg),
+            4 => !matches!(self.pending_until, Some(u) if self.now <= u),
+            _ => true,
+        }
     }
     fn self_exec(&mut self, cfg: &Cfg, k: usize, meta: Meta, executor_signs: bool) -> Exp {
         let ready = matches!(self.st[k], S::Pending(r) if r <= self.now);
@@ -137,9 +157,9 @@ impl Check for Controller {
     }
     fn generate(&self, rng: &mut Rng, tier: Tier) -> (Cfg, std::vec::Vec<Step>) {
         let nops = 2 + rng.below(3) as usize;
-        let cfg = Cfg { start_ledger: 2 + rng.below(100_000) as u32, min_delay: 1 + rng.below(20) as u32, with_executors: rng.chance(60), delays: (0..nops).map(|k| [0u32, 3, 40, 7, 1][k % 5] + rng.below(2) as u32 * 100).collect(), kinds: (0..nops).map(|_| match rng.below(10) { 0..=5 => 0, 6..=7 => 1, _ => 2 }).collect() };
+        let cfg = Cfg { start_ledger: 2 + rng.below(100_000) as u32, min_delay: 1 + rng.below(20) as u32, with_executors: rng.chance(60), delays: (0..nops).map(|k| [0u32, 3, 40, 7, 1][k % 5] + rng.below(2) as u32 * 100).collect(), kinds: (0..nops).map(|_| match rng.below(100) { 0..=44 => 0, 45..=59 => 1, 60..=74 => 2, 75..=84 => 3, 85..=91 => 4, _ => 5 }).collect() };
         let nsteps = if tier == Tier::Quick { 20 + rng.below(30) } else { 20 + rng.below(60) } as usize;
-        let mut m = Model { st: vec![S::Unset; nops], decoy: vec![S::Unset; nops], min: cfg.min_delay, now: cfg.start_ledger, cancellers: [1usize].into_iter().collect() };
+        let mut m = Model { st: vec![S::Unset; nops], decoy: vec![S::Unset; nops], min: cfg.min_delay, now: cfg.start_ledger, cancellers: [1usize].into_iter().collect(), pending_until: None, admin_gone: false, role_admin_set: false };
         let mut steps = vec![];
         for _ in 0..nsteps {
             let k = rng.below(nops as u64) as usize;
@@ -193,20 +213,23 @@ impl Check for Controller {
         let zero = BytesN::<32>::from_array(e, &[0u8; 32]);
         let salt = |k: usize| BytesN::<32>::from_array(e, &[k as u8 + 1; 32]);
         let canceller_role = Symbol::new(e, "canceller");
-        let fname_str = |k: usize| -> &'static str { match kind_of(cfg, k) { 0 => "update_delay", 1 => "grant_role", _ => "revoke_role" } };
+        let fname_str = |k: usize| -> &'static str { match kind_of(cfg, k) { 0 => "update_delay", 1 => "grant_role", 2 => "revoke_role", 3 => "transfer_admin_role", 4 => "renounce_admin", _ => "set_role_admin" } };
         let fname_of = |k: usize| Symbol::new(e, fname_str(k));
         let args_of = |k: usize| -> Vec<Val> {
             match kind_of(cfg, k) {
                 0 => svec![e, cfg.delays[k].into_val(e)],
                 1 => (a(3), canceller_role.clone(), id.clone()).into_val(e),
-                _ => (a(1), canceller_role.clone(), id.clone()).into_val(e),
+                2 => (a(1), canceller_role.clone(), id.clone()).into_val(e),
+                3 => (a(3), offer_until(cfg)).into_val(e),
+                4 => Vec::new(e),
+                _ => (canceller_role.clone(), Symbol::new(e, "proposer")).into_val(e),
             }
         };
         let ids: std::vec::Vec<BytesN<32>> = (0..cfg.delays.len()).map(|k| c.hash_operation(&id, &fname_of(k), &args_of(k), &zero, &salt(k))).collect();
         // the decoys' target: some other contract (never invoked)
         let other = a(3);
         let decoy_ids: std::vec::Vec<BytesN<32>> = (0..cfg.delays.len()).map(|k| c.hash_operation(&other, &fname_of(k), &args_of(k), &zero, &salt(k))).collect();
-        let mut m = Model { st: vec![S::Unset; cfg.delays.len()], decoy: vec![S::Unset; cfg.delays.len()], min: cfg.min_delay, now: cfg.start_ledger, cancellers: [1usize].into_iter().collect() };
+        let mut m = Model { st: vec![S::Unset; cfg.delays.len()], decoy: vec![S::Unset; cfg.delays.len()], min: cfg.min_delay, now: cfg.start_ledger, cancellers: [1usize].into_iter().collect(), pending_until: None, admin_gone: false, role_admin_set: false };
         for (i, s) in steps.iter().enumerate() {
             w.set_auth(&[]);
             let before = w.storage_digest(&[&id]);
@@ -348,10 +371,13 @@ impl Check for Controller {
                     return Err(violation("self_admin.needs_ready_op_consumed", "roles", i, format!("canceller role of actor {x} disagrees with the model {:?} after {s:?}", m.cancellers)));
                 }
             }
-            if c.get_admin() != Some(id.clone()) {
-                return Err(violation("self_admin.needs_ready_op_consumed", "admin", i, "admin changed".into()));
+            if c.get_admin() != if m.admin_gone { None } else { Some(id.clone()) } {
+                return Err(violation("self_admin.needs_ready_op_consumed", "admin", i, format!("admin {:?}, model gone={} after {s:?}", c.get_admin(), m.admin_gone)));
             }
-            st.state(&(m.st.iter().map(|x| match x { S::Unset => 0u8, S::Done => 3, S::Pending(r) => if *r > m.now { 1 } else { 2 } }).collect::<std::vec::Vec<_>>(), cfg.with_executors, cfg.kinds.clone(), m.cancellers.clone(), m.decoy.iter().map(|x| match x { S::Pending(r) => if *r > m.now { 1u8 } else { 2 }, _ => 0 }).collect::<std::vec::Vec<_>>()));
+            if c.get_role_admin(&canceller_role).is_some() != m.role_admin_set {
+                return Err(violation("self_admin.needs_ready_op_consumed", "role_admin", i, format!("admin role of canceller {:?}, model set={} after {s:?}", c.get_role_admin(&canceller_role), m.role_admin_set)));
+            }
+            st.state(&(m.st.iter().map(|x| match x { S::Unset => 0u8, S::Done => 3, S::Pending(r) => if *r > m.now { 1 } else { 2 } }).collect::<std::vec::Vec<_>>(), cfg.with_executors, cfg.kinds.clone(), m.cancellers.clone(), m.admin_gone, m.role_admin_set, matches!(m.pending_until, Some(u) if m.now <= u), m.decoy.iter().map(|x| match x { S::Pending(r) => if *r > m.now { 1u8 } else { 2 }, _ => 0 }).collect::<std::vec::Vec<_>>()));
         }
         Ok(())
     }
